@@ -3,7 +3,7 @@ import GMGProofs.Lemmas.CycleExact
 import GMGProofs.Props.C06d
 import GMGProofs.Props.C04c
 /-!
-# The operator hypotheses of `Cycle.ExactData` for `Concrete.ops H`
+# The operator hypotheses of `MGCycle.ExactData` for `Concrete.ops H`
 * a code-level sweep started from the exact discrete solution returns the same ARRAY (Dirichlet inner boundary, elliptic data):
   totality (`C06d.code_sweep_total_dirichlet`), the sweep equations (`C06d.code_sweep_isSweep_dirichlet`), the fixed point
   (`C06.fixed_point`), uniqueness (`C06.sweep_unique_dirichlet`), size (`C06c.sweep_size`);
@@ -12,7 +12,7 @@ import GMGProofs.Props.C04c
 Everything is phrased through `lvl H l`, so that no shape relation between the levels or with the transfer pair is assumed.
 -/
 namespace Concrete
-open Stencil Scalar Cycle
+open Stencil Scalar MGCycle
 
 section AnyField
 variable {K : Type} [_root_.Field K]
